@@ -388,6 +388,42 @@ func (w *World) ruleXorLanes(rule, repo string) {
 				return
 			}
 			n++
+			// shape: lane k receives (lane k) XOR (word k of the block); an assignment or another operator
+			// makes this variant absorb something else than its sibling
+			if bo, isB := st.Val.(*ssa.BinOp); !isB || bo.Op != token.XOR {
+				if bad == "" {
+					bad = "lane store `" + render(st.Addr) + " = " + render(st.Val) + "` is not an xor into the lane"
+				}
+				return
+			} else {
+				var word ssa.Value
+				if ld, isL := bo.X.(*ssa.UnOp); isL && ld.Op == token.MUL && render(ld.X) == render(st.Addr) {
+					word = bo.Y
+				} else if ld, isL := bo.Y.(*ssa.UnOp); isL && ld.Op == token.MUL && render(ld.X) == render(st.Addr) {
+					word = bo.X
+				}
+				if word == nil {
+					if bad == "" {
+						bad = "lane store `" + render(st.Addr) + " = " + render(st.Val) + "` does not xor into the same lane it loads"
+					}
+					return
+				}
+				wr := render(word)
+				okWord := false
+				if c, isC := constOf(ia.Index); isC {
+					k, _ := constInt64(c.Value)
+					// unrolled: word k of the reinterpreted block
+					okWord = strings.HasSuffix(wr, fmt.Sprintf("[%d]", k)) && strings.Contains(wr, buf)
+				} else {
+					// loop: little-endian word read from the block at 8·i (either by indexing or by advancing the slice 8 bytes per iteration)
+					idx := render(ia.Index)
+					okWord = strings.Contains(wr, "Uint64(") && strings.Contains(wr, buf) &&
+						(strings.Contains(wr, "(8 * "+idx+")") || strings.Contains(wr, "("+idx+" * 8)") || advancesBy8(word, fn.Params[1]))
+				}
+				if !okWord && bad == "" {
+					bad = "the word xored into lane `" + render(ia.Index) + "` is `" + wr + "`, not word " + render(ia.Index) + " of the block"
+				}
+			}
 			if c, isC := constOf(ia.Index); isC {
 				k, _ := constInt64(c.Value)
 				// unrolled variant: lane k needs 8(k+1) bytes; lanes ≥ 13 only under the length guard
@@ -439,4 +475,33 @@ func lenOfParam(fn *ssa.Function, i int) ssa.Value {
 
 func sizeOf(t types.Type) int64 {
 	return types.SizesFor("gc", "amd64").Sizeof(t)
+}
+
+// advancesBy8: word = Uint64(φ) where φ = phi(buf, φ[8:]) — the slice-advancing idiom of the generic absorb loop.
+func advancesBy8(word ssa.Value, buf *ssa.Parameter) bool {
+	c, ok := word.(*ssa.Call)
+	if !ok || len(c.Call.Args) == 0 {
+		return false
+	}
+	ph, ok := c.Call.Args[len(c.Call.Args)-1].(*ssa.Phi)
+	if !ok {
+		return false
+	}
+	fromBuf, adv := false, false
+	for _, e := range ph.Edges {
+		if e == ssa.Value(buf) {
+			fromBuf = true
+			continue
+		}
+		if sl, ok := e.(*ssa.Slice); ok && sl.X == ssa.Value(ph) && sl.High == nil {
+			if k, ok := constOf(sl.Low); ok {
+				if v, _ := constInt64(k.Value); v == 8 {
+					adv = true
+					continue
+				}
+			}
+		}
+		return false
+	}
+	return fromBuf && adv
 }
